@@ -69,7 +69,6 @@ CORRESPONDENCE_ONLY = ["lrint, llrint (spec = intMag .halfEven with range check;
                        "fdim (spec: correctly rounded x-y via rne; no theorem about rne)",
                        "fmod, remainder (spec: mag x % mag y re-encoded by ofMag; no theorem that ofMag decodes back)",
                        "gcem floor/ceil/trunc/round on the constant-evaluated path (model gcemFloor.. mirrors gcem incl. its defects; counterexample theorems only, no *_partial theorem)",
-                       "key order = value order (key monotone in mag): nextafter_adjacent, fmin_spec, fmax_spec are stated on `key`",
                        "rint_fallback / lrint_fallback on the constant-evaluated path (model = code; no theorem)",
                        "fmod, remainder on the constant-evaluated path (gcem x - trunc(x/y)*y: not modelled, known finding)"]
 
@@ -218,34 +217,44 @@ def vector_stage(tier, seed, dist):
     ctx.run_id += "v"
     exe = os.path.join(lib.BUILD, "c16_harness")
     t0 = time.time()
-    results = lib.run_batch(ctx, cases, exe, DRIVER)
-    dist["lean/vector_wall_s"] = round(time.time() - t0, 1)
     singles = set()
     nelem = 0
-    for c, rows in zip(cases, results):
-        r = rows[0]
-        if "bad-op" in (r.impl, r.model):
-            raise lib.MachineryError("bad-op on vector line: %s" % c.lines[0][:120])
-        line = c.lines[0]
-        toks = dict(t.split("=", 1) for t in line.split()[1:])
-        w = int(toks["t"])
-        xs = toks["xs"][1:-1].split(",")
-        if line.startswith("uv"):
-            cols = [_split(v) for v in (r.impl, r.std, r.model, r.spec)]
-            for fi, f in enumerate(UNARY):
-                for k, x in enumerate(xs):
-                    nelem += 1
-                    i_, s_, m_, p_ = (cols[q][fi][k] for q in range(4))
+    BATCH = 16384                      # bounded memory: a vector line carries ~30 kB of results
+    for b0 in range(0, len(cases), BATCH):
+        batch = cases[b0:b0 + BATCH]
+        results = lib.run_batch(ctx, batch, exe, DRIVER)
+        for c, rows in zip(batch, results):
+            r = rows[0]
+            if "bad-op" in (r.impl, r.model):
+                raise lib.MachineryError("bad-op on vector line: %s" % c.lines[0][:120])
+            line = c.lines[0]
+            unary = line.startswith("uv")
+            nelem += 64 * (len(UNARY) if unary else 1)
+            if r.impl == r.std == r.model == r.spec:
+                continue
+            toks = dict(t.split("=", 1) for t in line.split()[1:])
+            w = int(toks["t"])
+            xs = toks["xs"][1:-1].split(",")
+            if unary:
+                cols = [v.split(";") for v in (r.impl, r.std, r.model, r.spec)]
+                for fi, f in enumerate(UNARY):
+                    ci, cs, cm, cp = (cols[q][fi] for q in range(4))
+                    if ci == cs == cm == cp:
+                        continue
+                    ei, es, em, ep = ci.split(","), cs.split(","), cm.split(","), cp.split(",")
+                    for k, x in enumerate(xs):
+                        i_, s_, m_, p_ = ei[k], es[k], em[k], ep[k]
+                        if not (lib.eq(p_, s_) and lib.eq(i_, p_) and lib.eq(i_, m_)):
+                            singles.add("u t=%d f=%s x=%s" % (w, f, x))
+            else:
+                ys = toks["ys"][1:-1].split(",")
+                ei, es, em, ep = (v.split(",") for v in (r.impl, r.std, r.model, r.spec))
+                for k, (x, y) in enumerate(zip(xs, ys)):
+                    i_, s_, m_, p_ = ei[k], es[k], em[k], ep[k]
                     if not (lib.eq(p_, s_) and lib.eq(i_, p_) and lib.eq(i_, m_)):
-                        singles.add("u t=%d f=%s x=%s" % (w, f, x))
-        else:
-            ys = toks["ys"][1:-1].split(",")
-            cols = [v.split(",") for v in (r.impl, r.std, r.model, r.spec)]
-            for k, (x, y) in enumerate(zip(xs, ys)):
-                nelem += 1
-                i_, s_, m_, p_ = (cols[q][k] for q in range(4))
-                if not (lib.eq(p_, s_) and lib.eq(i_, p_) and lib.eq(i_, m_)):
-                    singles.add("b t=%d f=%s x=%s y=%s" % (w, toks["f"], x, y))
+                        singles.add("b t=%d f=%s x=%s y=%s" % (w, toks["f"], x, y))
+        del results
+    dist["lean/vector_wall_s"] = round(time.time() - t0, 1)
     dist["lean/vector_lines"] = len(cases)
     dist["lean/vector_evaluations"] = nelem
     dist["lean/vector_disagreements"] = len(singles)
@@ -485,7 +494,7 @@ THEOREMS = {
     "cu": [P + n for n in ("signbitFallback_eq", "gcemFloor_counterexample", "gcemCeil_counterexample",
                            "gcemTrunc_counterexample", "gcemRound_counterexample", "absImpl_counterexample")],
     "b": [P + n for n in ("copysign_spec", "fmin_model_eq", "fmax_model_eq", "fmin_spec", "fmax_spec", "fmin_nan",
-                          "nextafter_model_eq", "nextafter_adjacent", "nextafter_special")],
+                          "nextafter_model_eq", "nextafter_adjacent", "nextafter_special", "key_is_value_order", "mag_strict_mono")],
     "cb": [P + n for n in ("copysignFallback_eq", "nextafter_model_eq", "fmin_model_eq", "fmax_model_eq")],
 }
 THEOREMS["uv"] = THEOREMS["u"]
